@@ -135,7 +135,12 @@ def collector_offsets(ctx):
                     'end_node no longer records (node, start offset popped '
                     'from the stack, end offset)', en.file, en.line)
     sn = repo.func('qvm.debug_info', 'DebugInfoCollector.start_node')
-    ok = 'self._stack.append((node, code_offset))' in unparse(sn.node)
+    sn_params = [a.arg for a in sn.node.args.args[1:3]]
+    ok = any(isinstance(c, ast.Call) and
+             unparse(c.func) == 'self._stack.append' and
+             len(c.args) == 1 and isinstance(c.args[0], ast.Tuple) and
+             [unparse(e) for e in c.args[0].elts] == sn_params
+             for c in ast.walk(sn.node))
     ctx.instance(rule, f'{sn.file}:DebugInfoCollector.start_node')
     if not ok:
         ctx.finding(rule, f'{sn.file}:DebugInfoCollector.start_node',
